@@ -82,6 +82,13 @@ func registerIOModels() {
 		}
 		return &Ptr{C: c}
 	}
+	intercepts["(*bytes.Reader).Read"] = func(ex *Exec, fn *ssa.Function, a []Value) Value {
+		chunks, pos, ok := ex.sourceOf(a[0])
+		if !ok {
+			ex.fatal("(*bytes.Reader).Read on a reader that is not file content")
+		}
+		return ex.readOnce(*chunks, pos, a[1].(*SliceVal), true)
+	}
 	intercepts["(*bytes.Buffer).Bytes"] = func(ex *Exec, fn *ssa.Function, a []Value) Value {
 		c := a[0].(*Ptr).C
 		s := c.Kids[0].V.(*SliceVal)
